@@ -230,6 +230,8 @@ def certify_records_grouped(ctx, recs, max_bits=400, max_degree=24, workers=16, 
             rec["why"] = "degree-cap"; continue
         tgt = min_radius_log2(S.discs_of(r), floor=-10 ** 9) - slack
         mb = max_bits(len(poly) - 1) if callable(max_bits) else max_bits
+        mb = max(mb, rec["case"].get("max_bits", 0) or 0, rec.get("max_bits", 0) or 0)      # a case may ask for more
+        if rec.get("target_override") is not None: tgt = rec["target_override"]
         if tgt < -mb:
             rec["why"] = "precision-cap"; tgt = -mb
         rec["target"] = tgt
